@@ -23,7 +23,7 @@ def run(ck):
         import C10
         vlib.CURRENT_EXTS = ("C10",)
         texe = vlib.build_harness(san="tsan")
-        rounds = 40 if quick else 1000
+        rounds = 60 if quick else 1000
         fa = hexs(frame(upmsg([1], 1, 0x82, [7]))); fb = hexs(frame(upmsg([1], 2, 0x8B, [1, 2])))
         tscript = ["start 0 - 0", "logw 0", "qstress 4 %d %s %s" % (rounds, fa, fb)]
         trc, tout, terr = vlib.run_driver(texe, "\n".join(tscript) + "\n", timeout=300, env_extra=C10.TSAN_ENV)
